@@ -1,4 +1,5 @@
 /* env/relay_env.h -- TRUSTED environment of tools/xcmrelay/xrelay.c (include AFTER the real TU and env/base.h).
+ * TRUSTED(libxcm public API) TRUSTED(libevent) TRUSTED(libc memmove) TRUSTED(relay user callbacks)
  *
  * The relay sits between two things it does not implement: the public XCM API (libxcm, verified in its own units)
  * and libevent.  Both are cut here by stub bodies with ghost state.  Nothing in this file is relay code.
@@ -11,8 +12,8 @@
  *   closed       xcm_close() was called
  *   pending_out  a message/bytes accepted by xcm_send() may still sit in XCM's buffer (cleared by a successful
  *                xcm_finish(); see xcm.h "Buffer Flush Before Close")
- * plus a record of the last xcm_receive / xcm_send / xcm_finish call (socket, buffer, length, result, byte at the ghost
- * index xv_j) and call counters.  Every stub
+ * plus a record of the last xcm_receive / xcm_send / xcm_finish call (socket, buffer, length, result) and call counters.
+ * Every stub
  *   - returns ANY result the documented API allows (-1 with any errno 1..XV_RELAY_ERRNO_MAX included),
  *   - asserts that the socket is one of the two legs, is not closed, and that the relay's termination callback has not
  *     run yet (xv_terminated): "no use of a relay after its termination callback".
@@ -41,12 +42,15 @@
 #define XV_RELAY_DATA_MAX 65535
 #define XV_RELAY_CALLS_MAX 1000000
 
-/* ---- the two legs ------------------------------------------------------------------------------------------------ */
-char xv_sock_obj[2];                                  /* two distinct addresses; never dereferenced */
+/* ---- the two legs (and, for the rserver jobs, the listening socket as entry 2) ------------------------------------- */
+char xv_sock_obj[3];                                  /* distinct addresses; never dereferenced */
 #define XV_CONN(i) ((struct xcm_socket *)&xv_sock_obj[i])
+#define XV_SRV 2
 
-struct xv_leg { _Bool blocking; _Bool closed; _Bool pending_out; int cond; int fd; };
-struct xv_leg xv_legs[2];
+/* exists / bytestream are used by the rserver jobs only (a connection socket comes into being by accept/connect) */
+struct xv_leg { _Bool blocking; _Bool closed; _Bool pending_out; _Bool exists; _Bool bytestream; int cond; int fd; };
+struct xv_leg xv_legs[3];
+_Bool xv_srv_present;     /* ghost constant: the job has a listening socket (rserver jobs) */
 
 /* ghost constant (set by the harness, never assigned afterwards): address of the hold buffer of the xfwd under proof; an
  * xcm_receive / xcm_send / memmove with any other buffer is a failed obligation (hold-one) */
@@ -78,12 +82,18 @@ int xv_fcb_calls; int xv_fcb_reason; const char *xv_fcb_msg; void *xv_fcb_data; 
 int xv_rcb_calls; int xv_rcb_reason; const char *xv_rcb_msg; void *xv_rcb_data; struct xrelay *xv_rcb_relay;  /* xrelay_err_cb */
 
 struct xv_leg nondet_xv_leg(void);
+static inline void xv_leg_havoc(int i)
+{
+    xv_legs[i] = nondet_xv_leg();
+    /* _Bool members of a nondet struct may hold any byte; make them proper truth values */
+    xv_legs[i].blocking = nondet_bool(); xv_legs[i].closed = nondet_bool(); xv_legs[i].pending_out = nondet_bool();
+    xv_legs[i].exists = nondet_bool(); xv_legs[i].bytestream = nondet_bool();
+}
 void *nondet_vptr(void);
-char nondet_char(void);
 /* every relay harness calls this right after xv_ghost_havoc() */
 static inline void xv_relay_havoc(void)
 {
-    xv_legs[0] = nondet_xv_leg(); xv_legs[1] = nondet_xv_leg();
+    xv_leg_havoc(0); xv_leg_havoc(1); xv_leg_havoc(XV_SRV); xv_srv_present = 0;
     xv_hold_off = nondet_long(); xv_hold_len = nondet_long(); xv_snd_off = nondet_long(); xv_mm_calls = nondet_int(); xv_mm_n = nondet_size_t();
     xv_bytestream = nondet_bool(); xv_src = nondet_int(); xv_terminated = nondet_bool(); xv_cb_frees = nondet_bool();
     xv_rcv_calls = nondet_int(); xv_rcv_conn = nondet_vptr(); xv_rcv_buf = nondet_vptr(); xv_rcv_cap = nondet_size_t();
@@ -104,6 +114,12 @@ static inline void xv_relay_havoc(void)
                               XV_RCNT_OK(xv_sb_calls) && XV_RCNT_OK(xv_close_calls) && XV_RCNT_OK(xv_ev_pending) && XV_RCNT_OK(xv_ev_add_calls) && \
                               XV_RCNT_OK(xv_ev_del_calls) && XV_RCNT_OK(xv_ev_assign_calls) && XV_RCNT_OK(xv_fcb_calls) && XV_RCNT_OK(xv_rcb_calls) && XV_RCNT_OK(xv_mm_calls))
 
+/* what the counters may have grown to at the exit of a function under contract (no function makes 64 calls of a kind) */
+#define XV_RCNT_OUT(c) ((c) >= 0 && (c) < XV_RELAY_CALLS_MAX + 64)
+#define XV_RELAY_GHOST_RANGE_OUT (XV_RCNT_OUT(xv_rcv_calls) && XV_RCNT_OUT(xv_snd_calls) && XV_RCNT_OUT(xv_fin_calls) && XV_RCNT_OUT(xv_aw_calls) && \
+                              XV_RCNT_OUT(xv_sb_calls) && XV_RCNT_OUT(xv_close_calls) && XV_RCNT_OUT(xv_ev_pending) && XV_RCNT_OUT(xv_ev_add_calls) && \
+                              XV_RCNT_OUT(xv_ev_del_calls) && XV_RCNT_OUT(xv_ev_assign_calls) && XV_RCNT_OUT(xv_fcb_calls) && XV_RCNT_OUT(xv_rcb_calls) && XV_RCNT_OUT(xv_mm_calls))
+
 static int xv_relay_any_errno(void)
 {
     int e = nondet_int();
@@ -114,9 +130,9 @@ static int xv_relay_any_errno(void)
 /* which leg; obligations common to every XCM call the relay makes */
 static int xv_leg_use(struct xcm_socket *s)
 {
-    __CPROVER_assert(s == XV_CONN(0) || s == XV_CONN(1), "C20 XCM call on a socket that is a leg of this relay");
-    __CPROVER_assume(s == XV_CONN(0) || s == XV_CONN(1));
-    int i = s == XV_CONN(0) ? 0 : 1;
+    __CPROVER_assert(s == XV_CONN(0) || s == XV_CONN(1) || (xv_srv_present && s == XV_CONN(XV_SRV)), "C20 XCM call on a socket that is a leg of this relay");
+    __CPROVER_assume(s == XV_CONN(0) || s == XV_CONN(1) || (xv_srv_present && s == XV_CONN(XV_SRV)));
+    int i = s == XV_CONN(0) ? 0 : s == XV_CONN(1) ? 1 : XV_SRV;
     __CPROVER_assert(!xv_legs[i].closed, "C20 no XCM call on a closed socket");
     __CPROVER_assert(!xv_terminated, "C20 no XCM call after the relay's termination callback");
     return i;
@@ -178,13 +194,13 @@ int xcm_send(struct xcm_socket *__restrict conn_socket, const void *__restrict b
     return (int)n;
 }
 
-/* xcm_await: EINVAL on a blocking socket or for bits that are not valid on a connection socket, else the condition is
+/* xcm_await: EINVAL on a blocking socket or for bits that are not valid on this type of socket, else the condition is
  * what the socket awaits from now on (xcm.c: xcm_await) */
 int xcm_await(struct xcm_socket *socket, int condition)
 {
     int i = xv_leg_use(socket);
     xv_aw_calls++;
-    if (xv_legs[i].blocking || (condition & ~(XCM_SO_RECEIVABLE | XCM_SO_SENDABLE)) != 0) {
+    if (xv_legs[i].blocking || (condition & ~(i == XV_SRV ? XCM_SO_ACCEPTABLE : (XCM_SO_RECEIVABLE | XCM_SO_SENDABLE))) != 0) {
         xv_errno = EINVAL;
         return -1;
     }
@@ -250,6 +266,55 @@ int xcm_close(struct xcm_socket *socket)
     xv_legs[i].closed = 1;
     return 0;
 }
+
+#ifdef XV_RSERVER
+/* ---- rserver.c only: TRUSTED(libxcm public API) connection establishment and the xcm.service attribute ------------------- */
+#include <xcm_attr.h>
+int xv_accept_calls, xv_connect_calls, xv_fatal_calls;
+void *xv_fatal_data;
+/* xcm_accept_a: NULL with any errno (EAGAIN: nobody waiting), else a new connection socket -- leg 0 of the relay to be.
+ * It inherits the listening socket's non-blocking mode and awaits nothing yet. */
+struct xcm_socket *xcm_accept_a(struct xcm_socket *server_socket, const struct xcm_attr_map *attrs)
+{
+    int i = xv_leg_use(server_socket);
+    __CPROVER_assert(i == XV_SRV, "xcm_accept_a on the listening socket");
+    xv_accept_calls++;
+    if (nondet_bool()) { xv_errno = xv_relay_any_errno(); return NULL; }
+    __CPROVER_assert(!xv_legs[0].exists, "model: one accepted connection per job");
+    xv_legs[0].exists = 1; xv_legs[0].closed = 0; xv_legs[0].pending_out = 0; xv_legs[0].cond = 0; xv_legs[0].blocking = xv_legs[XV_SRV].blocking;
+    return XV_CONN(0);
+}
+/* xcm_connect_a: NULL with any errno, else a new (possibly still connecting) connection socket -- leg 1 */
+struct xcm_socket *xcm_connect_a(const char *remote_addr, const struct xcm_attr_map *attrs)
+{
+    xv_connect_calls++;
+    if (nondet_bool()) { xv_errno = xv_relay_any_errno(); return NULL; }
+    __CPROVER_assert(!xv_legs[1].exists, "model: one outbound connection per job");
+    xv_legs[1].exists = 1; xv_legs[1].closed = 0; xv_legs[1].pending_out = 0; xv_legs[1].cond = 0; xv_legs[1].blocking = 0;
+    return XV_CONN(1);
+}
+/* xcm_attr_get_str, for "xcm.service" (the only attribute rserver.c reads): -1 with any errno, else one of the two
+ * documented values, NUL-terminated, and its length + 1 (ENAMETOOLONG-style failure when it does not fit) */
+int xcm_attr_get_str(struct xcm_socket *socket, const char *name, char *value, size_t capacity)
+{
+    int i = xv_leg_use(socket);
+    __CPROVER_assert(__CPROVER_w_ok(value, capacity), "xcm_attr_get_str buffer writeable");
+    if (nondet_bool() || capacity < 11) { xv_errno = xv_relay_any_errno(); return -1; }
+    if (xv_legs[i].bytestream) {
+        value[0] = 'b'; value[1] = 'y'; value[2] = 't'; value[3] = 'e'; value[4] = 's'; value[5] = 't'; value[6] = 'r'; value[7] = 'e'; value[8] = 'a'; value[9] = 'm'; value[10] = 0;
+        return 11;
+    }
+    value[0] = 'm'; value[1] = 'e'; value[2] = 's'; value[3] = 's'; value[4] = 'a'; value[5] = 'g'; value[6] = 'i'; value[7] = 'n'; value[8] = 'g'; value[9] = 0;
+    return 10;
+}
+/* TRUSTED(libc) strerror / perror / fprintf (diagnostics only; fprintf is reached through the macro in harness/relay/_rserver.h) */
+char xv_strerror_buf[2];
+char *strerror(int errnum) { return xv_strerror_buf; }
+void perror(const char *s) { }
+int xv_fprintf(void) { return 0; }
+/* TRUSTED(caller) rserver_fatal_cb handed to rserver_create() (main.c: breaks the event loop, the process exits) */
+void xv_fatal_cb(void *cb_data) { xv_fatal_calls++; xv_fatal_data = cb_data; }
+#endif
 
 /* ---- TRUSTED(libc) memmove, specialised and content-abstract ---------------------------------------------------------
  * The only memmove of xrelay.c moves the unsent remainder to the front of the hold buffer.  Model for exactly that use
